@@ -50,6 +50,9 @@ type Spec struct {
 	// InstrPkgs: further packages (import paths) whose synchronisation operations are scheduling
 	// points of forced-schedule replays, like those of Package (e.g. queue for a harness in http).
 	InstrPkgs []string `json:"instr_pkgs"`
+	// NativeChecks: names of native tests in the harness directory that every check run executes
+	// (preconditions of the encoding; a failure makes the run INCONCLUSIVE).
+	NativeChecks []string `json:"native_checks"`
 	// NativeHooks: see nativehooks.go (native replay build only).
 	NativeHooks *NativeHooks `json:"native_hooks"`
 }
@@ -734,6 +737,9 @@ func checkSpec(hdir, prop, tier, only string, verbose bool, seed int64, acc *acc
 				problems = append(problems, fmt.Sprintf("%s: counterexample for %s did not reproduce natively (unconfirmed)", e.Name, id))
 			}
 		}
+	}
+	if only == "" {
+		problems = append(problems, runNativeChecks(spec)...)
 	}
 	for _, l := range lines {
 		if strings.HasPrefix(l, "KNOWN-FINDING:") {
